@@ -7,6 +7,7 @@ package main
 import (
 	"bytes"
 	"fmt"
+	"math"
 	"math/rand/v2"
 	"sort"
 
@@ -309,7 +310,8 @@ func init() {
 			firstCallUnit(firstAlign("C08")),
 			firstParallelUnit(parAlign),
 			reuseUnit(reuseAlign),
-			{Name: "largecalls", QShards: 2, TShards: 4, Run: func(c *Ctx) { alignLargeCalls(c, alignOpts{validity: true, local: true}, c08Gen) }},
+			{Name: "largecalls", QShards: 3, TShards: 6, StallSec: 120, Run: func(c *Ctx) { alignLargeCalls(c, alignOpts{validity: true, local: true}, c08Gen) }},
+			{Name: "wide", QShards: 3, TShards: 6, Run: func(c *Ctx) { alignWide(c, alignOpts{validity: true, local: true}, c08Gen) }},
 			{Name: "manycalls", QShards: 4, TShards: 6, Run: func(c *Ctx) { alignManyCalls(c, alignOpts{validity: true, local: true}, c08Gen) }},
 		},
 	})
@@ -330,7 +332,8 @@ func init() {
 			{Name: "tables", Run: c09Tables},
 			{Name: "reuse", TShards: 4, Run: func(c *Ctx) { alignReuse(c, alignOpts{validity: true, optimal: true}, 1) }},
 			{Name: "large", QShards: 2, TShards: 8, Run: func(c *Ctx) { alignLarge(c, alignOpts{validity: true, optimal: true}, c09Gen) }},
-			{Name: "largecalls", QShards: 2, TShards: 4, Run: func(c *Ctx) { alignLargeCalls(c, alignOpts{validity: true, optimal: true, local: true}, c09Gen) }},
+			{Name: "largecalls", QShards: 3, TShards: 6, StallSec: 120, Run: func(c *Ctx) { alignLargeCalls(c, alignOpts{validity: true, optimal: true, local: true}, c09Gen) }},
+			{Name: "wide", QShards: 3, TShards: 6, Run: func(c *Ctx) { alignWide(c, alignOpts{validity: true, optimal: true, local: true}, c09Gen) }},
 			{Name: "manycalls", QShards: 4, TShards: 6, Run: func(c *Ctx) { alignManyCalls(c, alignOpts{validity: true, optimal: true, local: true}, c09Gen) }},
 			firstCallUnit(firstAlign("C09")),
 			firstParallelUnit(parAlign),
@@ -352,8 +355,11 @@ func init() {
 			{Name: "witnesses", Run: c10Witnesses},
 			{Name: "reuse", TShards: 4, Run: func(c *Ctx) { alignReuse(c, alignOpts{validity: true, optimal: true, knownC10: true}, 2) }},
 			{Name: "large", QShards: 2, TShards: 8, Run: func(c *Ctx) { alignLarge(c, alignOpts{validity: true, optimal: true, knownC10: true}, c10Gen) }},
-			{Name: "largecalls", QShards: 2, TShards: 4, Run: func(c *Ctx) {
+			{Name: "largecalls", QShards: 3, TShards: 6, StallSec: 120, Run: func(c *Ctx) {
 				alignLargeCalls(c, alignOpts{validity: true, optimal: true, knownC10: true, local: true}, c10Gen)
+			}},
+			{Name: "wide", QShards: 3, TShards: 6, Run: func(c *Ctx) {
+				alignWide(c, alignOpts{validity: true, optimal: true, knownC10: true, local: true}, c10Gen)
 			}},
 			{Name: "manycalls", QShards: 4, TShards: 6, Run: func(c *Ctx) {
 				alignManyCalls(c, alignOpts{validity: true, optimal: true, knownC10: true, local: true}, c10Gen)
@@ -882,15 +888,32 @@ func sortKeys(keys [][2]byte) {
 // depends on the table size rather than on the content. Related sequences, so
 // that the alignments are real ones.
 func alignLarge(c *Ctx, o alignOpts, gen func(r *rand.Rand, mi int, alpha []byte) (align.SubstitutionMatrix, bool)) {
-	shapes := [][2]int{{4100, 4100}, {70000, 250}}
+	shapes := [][2]int{{4100, 4100}, {70000, 250}, {40000, 20}, {30020, 14}}
 	if c.Thorough {
-		shapes = [][2]int{{4100, 4100}, {70000, 250}, {250, 70000}, {4096, 4096}, {4095, 4097}, {9000, 2100}, {1 << 20, 17}, {3, 1 << 23}}
+		shapes = [][2]int{{4100, 4100}, {70000, 250}, {250, 70000}, {4096, 4096}, {4095, 4097}, {9000, 2100}, {1 << 20, 17}, {3, 1 << 23}, {40000, 20}, {30020, 14}, {14, 30021}}
 	}
 	for i, sh := range shapes {
 		c.Case(int64(i), func(k *K) {
 			r := k.Rand()
 			alpha := []byte("acgt")
 			m, local := gen(r, 0, alpha)
+			if i%2 == 1 {
+				// odd integer scores in the hundreds and thousands (log-odds in millibits): every score fits any
+				// narrow number type, the running sums of a long alignment (tens of millions) do not
+				small := true
+				for _, v := range m {
+					if math.Abs(v) > 8 || v != math.Trunc(v) {
+						small = false
+					}
+				}
+				if small {
+					f := pick(r, []float64{997, 1003, 331, 127})
+					for key, v := range m {
+						m[key] = v*f + float64(r.IntN(3)-1)*float64(int(v)%2) // (keeps the sign pattern; -0 stays 0)
+					}
+					k.Count("large_tables_with_odd_mid_sized_scores", 1)
+				}
+			}
 			a := randSeq(r, alpha, sh[0])
 			b := make([]byte, sh[1])
 			for j := range b { // b follows a (stretched or squeezed to its own length) with mutations
@@ -910,6 +933,58 @@ func alignLarge(c *Ctx, o alignOpts, gen func(r *rand.Rand, mi int, alpha []byte
 			k.Count("large_table_cases", 1)
 			k.Nontrivial([]byte(fmt.Sprint(sh)), a[:min(len(a), 64)], []byte(matrixString(m)))
 		})
+	}
+}
+
+// alignWide: matrices over WIDE alphabets — 20, 63..65, 100 and all 255 symbols
+// (400 … 65 000 scored pairs), asymmetric in the pair scores and in the two gap
+// directions — on sequences long enough that the table has more cells than the
+// matrix has pairs. An implementation may flatten a big matrix into an array,
+// index it by symbol numbers, or cache rows: none of that happens for the 2–4
+// symbol alphabets of the other units.
+func alignWide(c *Ctx, o alignOpts, gen func(r *rand.Rand, mi int, alpha []byte) (align.SubstitutionMatrix, bool)) {
+	widths := []int{20, 63, 64, 65, 100, 255}
+	per := c.N(3, 24)
+	idx := int64(0)
+	for _, w := range widths {
+		for i := 0; i < per; i++ {
+			c.Case(idx, func(k *K) {
+				r := k.Rand()
+				perm := r.Perm(255)
+				alpha := make([]byte, w)
+				for j := range alpha {
+					alpha[j] = byte(perm[j])
+				}
+				m, local := gen(r, i, alpha)
+				n := pick(r, []int{w + 8, 2*w + 10, 300})
+				a := randSeq(r, alpha, n)
+				b := append([]byte{}, a...)
+				for j := 0; j < 1+n/6; j++ { // substitutions, deletions, insertions
+					p := r.IntN(len(b))
+					switch r.IntN(3) {
+					case 0:
+						b[p] = alpha[r.IntN(w)]
+					case 1:
+						b = append(b[:p], b[p+1:]...)
+					default:
+						b = append(b[:p], append([]byte{alpha[r.IntN(w)]}, b[p:]...)...)
+					}
+					if len(b) == 0 {
+						b = []byte{alpha[0]}
+					}
+				}
+				k.Input("alphabet_size", w)
+				k.Input("matrix_pairs", len(m))
+				k.Input("a", a)
+				k.Input("b", b)
+				oo := o
+				oo.local = local && o.local
+				alignCase(k, a, b, m, oo)
+				k.Count("wide_alphabet_cases", 1)
+				k.Nontrivial([]byte(fmt.Sprint("wide", w)), a, b)
+			})
+			idx++
+		}
 	}
 }
 
@@ -979,6 +1054,26 @@ func alignLargeCalls(c *Ctx, o alignOpts, gen func(r *rand.Rand, mi int, alpha [
 						if r.IntN(12) == 0 {
 							b[j] = alpha[r.IntN(len(alpha))]
 						}
+					}
+					if variant == 1 && t == 1 {
+						// Twenty large calls that PANIC as documented (a symbol the matrix does not score, met in
+						// the last row) and are recovered, as a server or a worker pool would: whatever a call holds
+						// while it runs — a pooled table, a slot of a limiter — must be given back on that path too,
+						// or the calls after them starve (the watchdog pins a call that never returns).
+						bad := append(append([]byte{}, a...), 'Z')
+						for p := 0; p < 20; p++ {
+							if !expectPanic(func() {
+								if p%2 == 0 {
+									align.Global(bad, b, m)
+								} else {
+									align.Local(bad, b, m)
+								}
+							}) {
+								k.Failf("missing-panic", "a sequence with a symbol that the matrix does not score did not make Global/Local panic (table of %d x %d cells)", len(bad)+1, len(b)+1)
+								return
+							}
+						}
+						k.Count("recovered_panicking_large_calls", 20)
 					}
 					oo := o
 					oo.local = local && o.local && (variant == 0 || t%2 == 1)
